@@ -168,10 +168,10 @@ pub fn quantile_case(c: &Case, obs: &mut Obs) -> PResult {
 
 pub fn run(run: &mut Run) {
     run.technique = "enumeration of a parameter grid with the coverage probability summed exactly over all binomial outcomes (own pmf) — generated-input search against documented slack laws".into();
-    run.rule = "n on a grid (quick {25,50,100,200,400,1000}; thorough every n in 21..=600 and 150 values to 5000) x levels {0.8,0.9,0.95,0.99} x 3 kinds; proportion: intervals for all k, coverage at 801 values of p in [10/n,1-10/n]; quantile: ranks from ci_indices at 397 values of q with n q >= 10 and n (1-q) >= 10; non-trivial = (n, level, kind, p or q) with coverage strictly inside (0.001, 0.9999), i.e. mass on both sides of a bound; enumerated once each".into();
+    run.rule = "n on a grid (quick {25,50,100,200,400,1000,1500,2500}; thorough every n in 21..=600 and 150 values to 5000) x levels {0.8,0.9,0.95,0.99} x 3 kinds; proportion: intervals for all k, coverage at 801 values of p in [10/n,1-10/n]; quantile: ranks from ci_indices at 397 values of q with n q >= 10 and n (1-q) >= 10; non-trivial = (n, level, kind, p or q) with coverage strictly inside (0.001, 0.9999), i.e. mass on both sides of a bound; enumerated once each".into();
     crate::meanref::selftest_into(run);
     let ns: Vec<u64> = match run.tier {
-        crate::engine::Tier::Quick => vec![25, 50, 100, 200, 400, 1000],
+        crate::engine::Tier::Quick => vec![25, 50, 100, 200, 400, 1000, 1500, 2500],
         crate::engine::Tier::Thorough => {
             let mut v: Vec<u64> = (21..=600).collect();
             for i in 0..150 {
